@@ -303,6 +303,14 @@ def processLine (s : St) (line : String) : St × String :=
       | some [i, j, base] =>
         match s.get? i, s.get? j with
         | some (c, cb), some (d, db0) =>
+          -- a panic of `Clone`/`Hash` while the clone is being built: `*d = c.clone()` never assigns, `d` is as it was
+          if (match pk with | some (kind, n) => decide (n ≤ cbCount kind (clone c base).2.1) | none => false) then
+            match pk with
+            | some (kind, n) =>
+              let r := stepP s.p c (.cloneProbe base) {} kind n
+              (s, resLine s.p (mode == "F") true { r with cache := d } (some d))
+            | none => (s, "bad-op")
+          else
           let r := clone c base
           let db := cb.map (·.clone base)
           let res : Res := { cache := r.1, out := .cloned, evs := r.2.1 ++ dropCache d, status := r.2.2 }
@@ -377,6 +385,7 @@ def parseTy : Nat → List String → Option (Ty × List String)
     | "path" :: r => some (.path, r)
     | "phantom" :: r => some (.phantom, r)
     | "string" :: sz :: r => sz.toNat?.map fun n => (.stringLike n, r)
+    | "user" :: sz :: r => sz.toNat?.map fun n => (.user n, r)
     | "cstring" :: sz :: r => sz.toNat?.map fun n => (.cString n, r)
     | "slice" :: r => do let (t, r) ← parseTy f r; some (.slice t, r)
     | "array" :: sz :: n :: r => do
